@@ -634,7 +634,38 @@ def parse_opts(tokens):
     return opts
 
 
-def generate(repo, template_paths, twin=False, only=None):
+AUTO_IMPL_HEADERS = {
+    'SendState': 'impl SendState', 'Outbound': "impl<'a> Outbound<'a>", 'Connection': "impl<'a, 'buf> Connection<'a, 'buf>",
+    'Session': "impl<'buf> Session<'buf>", 'SessionData': "impl<'a> SessionData<'a>", 'RuntimeState': 'impl RuntimeState',
+    'PacketReader': "impl<'a> PacketReader<'a>", 'Properties': "impl<'a> Properties<'a>", 'ReasonCode': 'impl ReasonCode',
+    'Disconnect': "impl<'a> Disconnect<'a>", 'Publication': "impl<'a, P> Publication<'a, P>", 'Op': 'impl Op',
+}
+
+
+def find_auto(repo, tname, fname):
+    """Locate `fn fname` in an inherent impl of `tname` somewhere under src/. Returns the relative file or None."""
+    if tname not in AUTO_IMPL_HEADERS:
+        return None
+    for base, dirs, files in os.walk(os.path.join(repo, 'src')):
+        dirs.sort()
+        for f in sorted(files):
+            if not f.endswith('.rs'):
+                continue
+            rel = os.path.relpath(os.path.join(base, f), repo)
+            try:
+                src, clean = load(repo, rel)
+                find_fn(clean, tname, fname)
+                return rel
+            except AnchorLost:
+                continue
+    return None
+
+
+def can_auto_extract(repo, tname, fname):
+    return find_auto(repo, tname, fname) is not None
+
+
+def generate(repo, template_paths, twin=False, only=None, auto=()):
     """Returns (text, meta_per_line, info)."""
     out = Output()
     info = {'functions': [], 'types': [], 'consts': [], 'lemmas': [], 'trusted': []}
@@ -726,4 +757,31 @@ def generate(repo, template_paths, twin=False, only=None):
             i += 1
         if card is not None:
             raise GenError('%s: unterminated //@fn' % tp)
+    auto_names = []
+    for (tname, fname) in auto:
+        rel = find_auto(repo, tname, fname)
+        if rel is None:
+            continue
+        card = FnCard(rel, '%s::%s' % (tname, fname), {'id': 'auto.%s.%s' % (tname, fname), 'nospinoff': True})
+        out.add('verus! {', None)
+        out.add(AUTO_IMPL_HEADERS[tname] + ' {', None)
+        emit_fn(card, repo, out, info, twin=False, assumed_here=False)
+        out.add('}', None)
+        out.add('} // verus!', None)
+        info['functions'][-1]['auto'] = True
+        auto_names.append(fname)
+    if auto_names:
+        # callers of uncontracted helpers
+        lines = out.lines
+        by_fn = {}
+        for i, m in enumerate(out.meta):
+            if m and 'fn' in m and m.get('part') == 'body':
+                by_fn.setdefault(m['fn'], []).append(lines[i])
+        for f in info['functions']:
+            if f.get('auto'):
+                continue
+            txt = '\n'.join(by_fn.get(f['id'], []))
+            hit = [n for n in auto_names if re.search(r'\b%s\s*\(' % re.escape(n), txt)]
+            if hit:
+                f['calls_auto'] = hit
     return '\n'.join(out.lines) + '\n', out.meta, info
